@@ -37,6 +37,7 @@ def solve_r124(
 ):
     _check_finite(**locals())
     _check_flank_arguments(flank_angle, flank_width, flank_height, flank_length)
+    given_flank_angle = flank_angle is not None
 
     def l23(_alpha):
         return r1 * np.tan((_alpha + pad_angle) / 2)
@@ -132,6 +133,9 @@ def solve_r124(
             depth = r2 * (1 - np.cos(flank_angle)) + (
                 width / 2 - r2 * np.sin(flank_angle) - (r2 + r4) * np.sin(alpha4)
             ) * np.tan(flank_angle)
+
+        elif given_flank_angle:
+            raise TypeError("Give exactly two of r2, depth and usable_width.")
 
     else:
 
